@@ -2,13 +2,16 @@ from checks.common import Build, Job
 
 PROP = "C14"
 BUILDS = [Build("po_spec", "harness/c14_poll.c", flavor="spec"),
+          Build("po_spec_wb", "harness/c14_poll.c", flavor="spec", whitebox=True),
           Build("po_memb", "harness/c14_poll.c", flavor="memb"),
           Build("po_bp", "harness/c14_poll.c", flavor="bp")]
 RULE = ("every schedule (preemption / TSO-delay / futex-fault budget) of scenarios where 1-2 threads obtain poll handles at arbitrary "
         "points relative to in-flight grace periods, readers and the call_rcu helper, on the real urcu-poll-impl.h + "
         "urcu-call-rcu-impl.h over the specification flavor (and real memb/bp, shallower); oracles: litmus + interval "
         "grace-period oracle between start_poll and the first true poll, repeated polling terminates (livelock detection), "
-        "a handle that reported true never reports false, an older handle is complete when a younger one is")
+        "a handle that reported true never reports false, an older handle is complete when a younger one is; the same scenarios are also started "
+        "from non-initial worker states (white-box build: grace-period counter at ULONG_MAX and ULONG_MAX-1, so that the handles straddle its "
+        "wrap-around)")
 ASSUMPTIONS = ["specification flavor (C01 as assumption)", "x86-TSO", "vrt futex model"]
 DEADLINE = {"quick": 150, "thorough": 1500}
 
@@ -28,6 +31,12 @@ def jobs(tier):
     J.append(Job(S, "inflight", "1,0,0,0,0" if q else "1,0,0,0,1", {"helper": 1}, workers=8))
     J.append(Job(S, "three", "1,0,0,0" if q else "2,0,0,0", workers=8))
     J.append(Job(S, "three", "0,1,0,0,1", workers=8))
+    # non-initial start states: the identifiers taken in the scenario straddle the wrap-around of the grace-period counter
+    W = "po_spec_wb"
+    for sid in (-1, -2):
+        J.append(Job(W, "late", "1,0,0,0,0" if q else "1,0,0,0,1", {"start_id": sid}, workers=8))
+        J.append(Job(W, "inflight", "1,0,0,0,0" if q else "1,0,0,0", {"start_id": sid}, workers=8))
+    J.append(Job(W, "three", "0,0,0,0,1" if q else "1,0,0,0,0", {"start_id": -2}, workers=8))
     for b, env in (("po_memb", {"VRT_MEMBARRIER": 2}), ("po_bp", {"VRT_MEMBARRIER": 0})):
         p = {"qs_attempts": 1, "wait_attempts": 1}
         J.append(Job(b, "one", "1,0,0,0" if q else "2,0,0,0", p, env, workers=8))
